@@ -88,6 +88,44 @@ func (e *Engine) callStatic(fr *Frame, s *State, f *ssa.Function, args []Value, 
 	return e.callFunction(s, f, args, nil)
 }
 
+// error values are opaque but have an identity: errors.New / fmt.Errorf results are pairwise distinct constants,
+// an error returned by a modelled reader is an arbitrary one (it may be io.EOF or any other)
+func (e *Engine) newErrID() *Term {
+	e.errN++
+	return e.st.BVu(uint64(e.errN), 32)
+}
+
+func (e *Engine) symErrID() *Term {
+	return e.st.Sym(fmt.Sprintf("err_identity_%d", e.H.nextSym()), BV(32))
+}
+
+func (e *Engine) runeCount(fr *Frame, s *State, v Value, pos string) Value {
+	var n *Term
+	switch x := v.(type) {
+	case *StrV:
+		switch {
+		case x.Blob != nil:
+			n = x.Blob.Len
+		case x.Opaque:
+			panic(unsupported("rune count of an opaque string at %s", pos))
+		default:
+			n = e.st.BVu(uint64(len(x.Bytes)), e.intw)
+		}
+	case *SliceV:
+		n = x.Len
+	default:
+		panic(unsupported("rune count of %T at %s", v, pos))
+	}
+	if n.IsConst() && n.Val.Sign() == 0 {
+		return n
+	}
+	r := e.st.Sym(fmt.Sprintf("runecount_%d", e.H.nextSym()), BV(e.intw))
+	// len/4 <= runes <= len (at most four bytes per rune, invalid bytes count one rune each)
+	e.H.assumes = append(e.H.assumes, e.st.BVUle(r, n), e.st.BVUle(n, e.st.BVMul(r, e.st.BVu(4, e.intw))))
+	e.H.notes = append(e.H.notes, "rune count at "+pos+" modelled as any value between a quarter of the byte length and the byte length")
+	return r
+}
+
 func recvName(f *ssa.Function) string {
 	t := f.Signature.Recv().Type()
 	if p, ok := t.(*types.Pointer); ok {
@@ -172,6 +210,18 @@ func (e *Engine) builtin(fr *Frame, s *State, b *ssa.Builtin, args []Value, sarg
 		dl, sl := int(dst.Len.Val.Int64()), int(src.Len.Val.Int64())
 		et := sargs[0].Type().Underlying().(*types.Slice).Elem()
 		ec := e.cellCount(et)
+		if dst.Cap != nil && dst.Cap.IsConst() && int64(dl+sl) <= dst.Cap.Val.Int64() && len(dst.P.Alts) > 0 {
+			// enough capacity: Go appends in place (the backing array of dst is written; a caller-supplied or
+			// package-level backing array therefore shows up in the store log)
+			vals := make([]Value, sl*ec)
+			for k := range vals {
+				vals[k] = e.load(s, e.ptrAdd(src.P, k), leafT, pos, fr)
+			}
+			for k, v := range vals {
+				e.storeVal(s, e.ptrAdd(dst.P, dl*ec+k), v, leafT, pos, fr)
+			}
+			return &SliceV{P: dst.P, Len: e.st.BVu(uint64(dl+sl), e.intw), Cap: dst.Cap}
+		}
 		arr := types.NewArray(et, int64(dl+sl))
 		o := e.allocTyped("append", ObjLocal, arr)
 		o.owner = s
@@ -356,11 +406,63 @@ func init() {
 			e.H.hashObjs++
 			return &Iface{Dyn: e.stubType("hashstub"), Val: ptrTo(o, 0, e.st.True())}
 		},
+		// rune counting: the result depends on the content; any value between 0 and the byte length (a
+		// multi-byte string has fewer runes than bytes) -- over-approximation, noted in the evidence
+		"unicode/utf8.RuneCountInString": func(e *Engine, fr *Frame, s *State, args []Value, pos string) Value {
+			return e.runeCount(fr, s, args[0], pos)
+		},
+		"unicode/utf8.RuneCount": func(e *Engine, fr *Frame, s *State, args []Value, pos string) Value {
+			return e.runeCount(fr, s, args[0], pos)
+		},
+		// sync.Pool: Get returns a New() object that may have been used before.  For the hash objects the
+		// library pools, "used before" means an arbitrary sequence of bytes already written (a fresh sequence
+		// symbol, possibly empty); Put is a no-op.  Code that resets the object before use is unaffected.
+		"(*sync.Pool).Get": func(e *Engine, fr *Frame, s *State, args []Value, pos string) Value {
+			p, ok := args[0].(*Ptr)
+			if !ok || len(p.Alts) == 0 {
+				panic(unsupported("sync.Pool.Get on an unknown pool at %s", pos))
+			}
+			pt := fr.fn.Prog.ImportedPackage("sync")
+			if pt == nil {
+				panic(unsupported("sync.Pool without package sync at %s", pos))
+			}
+			st := pt.Pkg.Scope().Lookup("Pool").Type().Underlying().(*types.Struct)
+			idx := -1
+			for i := 0; i < st.NumFields(); i++ {
+				if st.Field(i).Name() == "New" {
+					idx = i
+				}
+			}
+			if idx < 0 {
+				panic(unsupported("sync.Pool has no New field"))
+			}
+			nv := e.load(s, e.ptrAdd(p, e.fieldOffset(st, idx)), st.Field(idx).Type(), pos, fr)
+			var obj Value
+			switch c := nv.(type) {
+			case *Closure:
+				obj = e.callFunction(s, c.Fn, nil, c.Bind)
+			case *FuncV:
+				obj = e.callFunction(s, c.Fn, nil, nil)
+			default:
+				panic(unsupported("sync.Pool.Get: pool without a New function at %s", pos))
+			}
+			if ifc, ok := obj.(*Iface); ok && ifc.Dyn == e.stubType("hashstub") {
+				hp := ifc.Val.(*Ptr)
+				prior := e.st.Sym(fmt.Sprintf("pool_prior_%d", e.H.nextSym()), SeqSort)
+				e.storeRaw(s, hp, prior)
+				e.H.notes = append(e.H.notes, "sync.Pool.Get at "+pos+": pooled hash object returned with arbitrary prior content")
+				return obj
+			}
+			panic(unsupported("sync.Pool.Get for objects other than hash states at %s", pos))
+		},
+		"(*sync.Pool).Put": func(e *Engine, fr *Frame, s *State, args []Value, pos string) Value {
+			return nil
+		},
 		"errors.New": func(e *Engine, fr *Frame, s *State, args []Value, pos string) Value {
-			return &Iface{Dyn: e.stubType("errstub"), Val: nil}
+			return &Iface{Dyn: e.stubType("errstub"), Val: e.newErrID()}
 		},
 		"fmt.Errorf": func(e *Engine, fr *Frame, s *State, args []Value, pos string) Value {
-			return &Iface{Dyn: e.stubType("errstub"), Val: nil}
+			return &Iface{Dyn: e.stubType("errstub"), Val: e.newErrID()}
 		},
 		"strconv.Itoa": func(e *Engine, fr *Frame, s *State, args []Value, pos string) Value {
 			return &StrV{Opaque: true}
@@ -632,7 +734,7 @@ func (e *Engine) readFull(fr *Frame, s *State, r *Iface, buf *SliceV, pos string
 		_ = old
 	}
 	nres := e.st.Ite(fail, e.st.Sym(fmt.Sprintf("rd%d_n", id), BV(e.intw)), e.st.BVu(uint64(ln), e.intw))
-	return Tuple{nres, &Iface{Dyn: e.stubType("errstub"), Nil: e.st.Not(fail)}}
+	return Tuple{nres, &Iface{Dyn: e.stubType("errstub"), Val: e.symErrID(), Nil: e.st.Not(fail)}}
 }
 
 func bigFromString(s string) *big.Int {
@@ -669,5 +771,5 @@ func (e *Engine) readerRead(fr *Frame, s *State, r *Iface, buf *SliceV, pos stri
 		g := e.st.BVUlt(e.st.BVu(uint64(k), e.intw), n)
 		e.storeVal(s, e.ptrAdd(buf.P, k), e.mergeValue(g, nv, old), leafT, pos, fr)
 	}
-	return Tuple{n, &Iface{Dyn: e.stubType("errstub"), Nil: e.st.Not(fail)}}
+	return Tuple{n, &Iface{Dyn: e.stubType("errstub"), Val: e.symErrID(), Nil: e.st.Not(fail)}}
 }
